@@ -44,7 +44,7 @@ ASSUMPTIONS = [
     "the gateway of parts B/C never sends; its write-spacing task is slowed down (MIN_INTER_WRITE_GAP patched) so that days of virtual time are affordable",
     "an attribute is read twice with a loop drain in between when judging 'reads as unknown' (see the recorded finding on the first read after expiry)",
 ]
-REQUIRED = {"A.messages": 300, "A.points": 3000, "A.1F09": 50, "B.packets": 500, "B.compared": 2000, "C.live_checks": 50, "C.aged_checks": 50}
+REQUIRED = {"A.messages": 300, "A.points": 3000, "A.1F09": 50, "B.packets": 500, "B.compared": 2000, "C.live_checks": 50, "C.aged_checks": 50, "D.live_checks": 300, "D.aged_checks": 30}
 
 CTL, GWY_ID = "01:145038", "18:006402"
 EPS = 0.01
@@ -377,8 +377,100 @@ async def part_bc(loop: vloop.VirtualLoop, ctx, trial: int) -> None:
     air.close()
 
 
+async def part_d(loop: vloop.VirtualLoop, ctx, trial: int) -> None:
+    """Staggered ages: packets hours apart, so that at any moment some attributes are live, some in the grace
+    band and some long expired.  After every packet *every* attribute is read (the expired ones too - reading
+    one is what makes the library purge it), the loop runs, and then: a live attribute (newest message younger
+    than its lifetime) must report that message's value whatever was purged around it; an attribute all of
+    whose messages are older than 2L+3 must report nothing."""
+    import random
+
+    rng = random.Random(f"C14d/{ctx.seed}/{trial}")
+    ep = {"seed": ctx.seed, "trial": trial, "part": "D"}
+    world = World(rng, rng.choice((2, 3, 4, 12)))
+    air = airmod.Air(loop)
+    gwy = await harness.start_port_gateway(loop, air, GWY_ID, config={"disable_discovery": True}, **world.schema())
+    port = gwy._vrf_port
+    trail: list[str] = []
+    writes: dict[tuple[str, str], list[tuple[float, float | None]]] = {}
+
+    def safe_read(key):
+        try:
+            return read_attr(gwy, world, key)
+        except Exception as err:  # noqa: BLE001
+            ctx.violate(f"C14|read-raises|{key[1]}|{type(err).__name__}|{innermost_lib_frame(err)}", "reading an attribute raised", {"attr": key, "error": repr(err)[:160], "last_packets": trail[-5:], "episode": ep})
+            return "<raised>"
+
+    gaps = rng.choice(((0.2, 20.0, 600.0, 1900.0), (20.0, 1900.0, 3700.0, 7300.0), (600.0, 3700.0, 14500.0, 30000.0), (0.2, 3700.0, 90000.0)))
+    for _ in range(rng.randint(15, 40 if ctx.quick else 90)):
+        frame, ups = world.step()
+        gap = rng.choice(gaps)
+        trail.append(f"+{gap:g}s " + frame)
+        port.stage_line("045 " + frame)
+        await asyncio.sleep(0.05)
+        await vloop.drain(loop, 8)
+        for key, val, life, form in ups:
+            world.model[key] = (val, loop.time() - 0.05, life, form)
+            writes.setdefault(key, []).append((loop.time() - 0.05, life))
+        await asyncio.sleep(gap)
+        ctx.count("D.packets")
+        order = list(world.model)
+        rng.shuffle(order)
+        for key in order:  # pass 1: touch everything (schedules the purges)
+            safe_read(key)
+        await vloop.drain(loop, 8)
+        now = loop.time()
+        for key in order:
+            val, vt, life, form = world.model[key]
+            if life is None:
+                continue
+            age = now - vt
+            if age < life - EPS:
+                got = safe_read(key)
+                ctx.count("D.live_checks")
+                ctx.seen(f"D|{key[1]}|{form}|live|{'ok' if got == val else 'differs'}")
+                if got != val and got != "<raised>":
+                    ctx.violate(
+                        f"C14|staggered|live-value-lost|{key[1]}|{form}|{'unknown' if got is None else 'stale-or-wrong'}",
+                        "with messages of different ages in the system, an attribute whose newest message is within its lifetime does not report it (after other, expired, attributes were read)",
+                        {"attr": list(key), "expected": val, "reported": got, "age_s": round(age, 3), "lifetime_s": life, "last_packets": trail[-8:], "episode": ep},
+                    )
+            elif all(lf is not None and now - t > 2 * lf + 3 + EPS for t, lf in writes[key]):
+                got = safe_read(key)
+                for _ in range(3):
+                    if got is None or got == "<raised>":
+                        break
+                    await vloop.drain(loop, 6)
+                    got = safe_read(key)
+                ctx.count("D.aged_checks")
+                ctx.seen(f"D|{key[1]}|{form}|aged|{'unknown' if got is None else 'lingers'}")
+                if got is not None and got != "<raised>":
+                    ctx.violate(
+                        f"C14|ageing|expired-value-lingers|{key[1]}|{form}",
+                        "an attribute keeps reporting a value whose newest message expired (more than twice its lifetime ago)",
+                        {"attr": list(key), "reported": got, "age_s": round(age, 3), "lifetime_s": life, "last_packets": trail[-8:], "episode": ep},
+                    )
+            else:
+                ctx.count("D.grace_band_unjudged")
+    ctx.ev()
+    await harness.stop_gateway(gwy)
+    air.close()
+
+
 def run(ctx) -> None:
     part_a(ctx)
+    for k in range(15 if ctx.quick else 300):
+        trial = ctx.shard + k * ctx.nshards
+        harness.reset_transport_globals()
+
+        async def god(loop, trial=trial):
+            with clocks_patched(), patch("ramses_tx.transport.MIN_INTER_WRITE_GAP", 3600.0):
+                await part_d(loop, ctx, trial)
+
+        try:
+            vloop.run(god)
+        except vloop.Starved as err:
+            ctx.inconclusive_because(f"scenario starved the virtual clock: {err}")
     for k in range(40 if ctx.quick else 600):
         trial = ctx.shard + k * ctx.nshards
         harness.reset_transport_globals()
@@ -409,7 +501,7 @@ def replay(data: dict[str, Any]) -> int:
 
         async def go(loop, ep=ep, ctx=ctx):
             with clocks_patched(), patch("ramses_tx.transport.MIN_INTER_WRITE_GAP", 3600.0):
-                await part_bc(loop, ctx, ep["trial"])
+                await (part_d if ep.get("part") == "D" else part_bc)(loop, ctx, ep["trial"])
 
         vloop.run(go)
         for k, v in ctx.violations.items():
